@@ -212,6 +212,10 @@ def run(chk, repo, tier):
     from .extra_rules import fit_tilt_rules as _fit_tilt_rules
     with chk.guard(['C03-p'], 'plane.Plane.fit_tilt'):
         _fit_tilt_rules(chk, repo, 'C03-p')
+    # ... and what is taken out of each segment's OPD is recorded - on the plane that is handed back
+    from .c04 import fit_tilt_rule as _fit_tilt_rule4
+    with chk.guard(['C03-p'], 'plane.Plane.fit_tilt'):
+        _fit_tilt_rule4(chk, repo, 'C03-p')
     # ... fitted against the same piston / tip / tilt basis as the whole aperture: the rows of every segment are the
     # monolithic rows times that segment's mask, each ramp scaled by the pixel size of its own axis
     from .c04 import basis_rule as _basis_rule
